@@ -158,25 +158,30 @@ def gen_case(rng, maxops, stats=None):
         elif r < .90: ops.append('h')
         else:
             pos = rng.choice([0, len(s), len(s), max(0, len(s) - 1), rng.randrange(0, len(s) + 1), len(s) + 1, len(s) + rng.randrange(1, 6)])
-            ps, text = [], []
+            ps = []
             lastlit = False
+            cur = pos
             for _ in range(rng.randrange(1, 4)):
-                kind = rng.choice('LSD')
+                kind = rng.choice('LSDX') if len(s) <= 120 else rng.choice('LSD')
                 if kind == 'L' and lastlit:
                     kind = 'S'
                 if kind == 'L':
                     t = [c for c in rnd_str(rng, alpha, rng.randrange(1, 4)) if c != 0x25] or [0x2e]
-                    ps.append('L' + hx(t)); text += t
+                    ps.append('L' + hx(t))
                 elif kind == 'S':
                     t = small()
-                    ps.append('S' + hx(t)); text += t
+                    ps.append('S' + hx(t))
+                elif kind == 'X':
+                    t = list(s)
+                    ps.append('X')
                 else:
                     z = rng.choice([0, 7, -1, 10, -10, 99, 100, 12345, -2**63, 2**63 - 1, 2**31, rng.randrange(-2**63, 2**63)])
-                    ps.append('D%d' % z); text += [ord(c) for c in str(z)]
+                    ps.append('D%d' % z); t = [ord(c) for c in str(z)]
                 lastlit = kind == 'L'
+                if cur <= len(s):           # piece by piece, as print_to_with does
+                    s = s[:cur] + t
+                cur += len(t)
             ops.append('f%d:%s' % (pos, ','.join(ps)))
-            if pos <= len(s):
-                s = s[:pos] + text
     return ('N' if noarg else hx(init)) + '|' + ' '.join(ops)
 
 
@@ -189,6 +194,8 @@ def steps(line):
 
 
 def oracle(case, impl, spec):
+    if impl == 'SKIPPED':
+        return None
     pi, ps = steps(impl), steps(spec)
     for n, a in enumerate(pi):
         if len(a) != 7:
@@ -220,6 +227,8 @@ def oracle(case, impl, spec):
 
 
 def corr(case, impl, model):
+    if impl == 'SKIPPED':
+        return None
     a, b = steps(CR.sub('CRASH', impl)), steps(model)
     for n, (x, y) in enumerate(zip(a, b)):
         if len(x) != 7 or len(y) != 4:
@@ -278,6 +287,8 @@ CORPUS = [
     '616263|z9 A s c64 s',                   # assign(s, s) shrinking a larger allocation
     '616263|M K E R s l R C A s',            # the String itself as needle / comparand; rem(s, s) empties it
     'N|l s h c6162 y s z5 y l c63 s',        # new(String) without arguments; copies
+    '616263|f3:X s l',                       # print_to(s, len, "%s", s): the argument was read after realloc released it
+    '616263|f1:X,L2d,X s f0:L3c,X,L3e s f9:X s',   # the String itself among the pieces, evaluated piece by piece
 ]
 
 
@@ -296,7 +307,7 @@ def exhaustive_cases(maxlen, alpha, nops):
     return out
 
 
-MENU = ['a', 'a6162', 'c', 'c61', 'c6261', 'C', 'A', 'z0', 'z1', 'z3', 'r61', 'r6162', 'r', 'R', 'f1:S62', 'f0:D7', 'f9:L7a', 'y']
+MENU = ['f1:X', 'a', 'a6162', 'c', 'c61', 'c6261', 'C', 'A', 'z0', 'z1', 'z3', 'r61', 'r6162', 'r', 'R', 'f1:S62', 'f0:D7', 'f9:L7a', 'y']
 
 
 def exhaustive_ops(maxlen, nops):
@@ -319,7 +330,7 @@ def run(ctx):
                        'rem/mem arguments are drawn per class: empty, equal to the target, at the start, in the middle, at the end, '
                        'overlapping a second occurrence, absent (class counts in coverage.classes); the String itself as argument of '
                        'assign/concat/append/rem/mem/cmp/eq; new without arguments; copies; plus every rem/mem over all strings <= 3 '
-                       'of {a,b} (quick) / <= 4 with two removals (thorough) and every sequence of 2 (quick) / 3 (thorough) operations of an 18-entry menu from every string <= 2 / <= 3. A case is non-trivial when a rem deleted a non-empty '
+                       'of {a,b} (quick) / <= 4 with two removals (thorough) and every sequence of 2 (quick) / 3 (thorough) operations of a 19-entry menu from every string <= 2 / <= 3. A case is non-trivial when a rem deleted a non-empty '
                        'proper part of the string or a formatted write cut it strictly inside; distinct = distinct implementation transcripts')
     ctx.assumptions += ['C text tied by correspondence only: extracted Gallina model vs library built from the working tree; '
                         'white-box (src/String.c included with realloc/calloc/free redirected): allocation size and every byte of the '
@@ -329,7 +340,25 @@ def run(ctx):
     ctx.coq()
     drv = ctx.build_driver('StringM')
     h = ctx.build_harness('string_ops.c', whitebox='String')
-    run_impl = lambda cs: ctx.run_lines(h, cs)[1]
+    henv = dict(os.environ, H_TIMEOUT=os.environ.get('H_TIMEOUT', '4'))
+
+    def chunked(exe, env):
+        """run the harness in chunks; once a chunk shows many crashes / hangs (a broken library: every such case costs
+        the watchdog's seconds) the remaining cases of the batch are not run (their lines read SKIPPED and are ignored)"""
+        def f(cs):
+            out, bad = [], 0
+            for i in range(0, len(cs), 250):
+                part = cs[i:i + 250]
+                if bad > 12:
+                    out += ['SKIPPED'] * len(part)
+                    continue
+                lines = ctx.run_lines(exe, part, env=env, timeout=900)[1]
+                lines += ['SKIPPED'] * (len(part) - len(lines))
+                bad += sum(1 for l in lines if 'TIMEOUT' in l or 'CRASH(' in l)
+                out += lines[:len(part)]
+            return out
+        return f
+    run_impl = chunked(h, henv)
     run_model = lambda cs: ctx.run_lines(drv, cs, args=['model'])[1]
     run_spec = lambda cs: ctx.run_lines(drv, cs, args=['spec'])[1]
     d = vlib.Differential(ctx, 'string', run_impl, run_model, run_spec, oracle, corr, nontrivial, split, join)
@@ -344,6 +373,8 @@ def run(ctx):
     d.feed(CORPUS, 'corpus')
     stats = {}
     n = 2000 if quick else 100000
+    if d.oracle_fail:
+        n = 400          # the corpus already fails: a short random stream is enough for the report
     maxops = 40
     cases = [gen_case(ctx.rng, maxops if i % 4 else 6, stats) for i in range(n)]
     for i in range(0, n, 2000):
@@ -361,8 +392,8 @@ def run(ctx):
         try:
             ctx.build_lib(tag='asan', cflags=['-fsanitize=address', '-fno-omit-frame-pointer'])
             ha = ctx.build_harness('string_ops.c', tag='asan', whitebox='String', extra=['-DH_ASAN', '-fsanitize=address', '-fno-omit-frame-pointer'])
-            env = dict(os.environ, ASAN_OPTIONS='detect_leaks=0:abort_on_error=1')
-            da = vlib.Differential(ctx, 'string_asan', lambda cs: ctx.run_lines(ha, cs, env=env)[1], run_model, run_spec,
+            env = dict(henv, ASAN_OPTIONS='detect_leaks=0:abort_on_error=1', H_TIMEOUT='10')
+            da = vlib.Differential(ctx, 'string_asan', chunked(ha, env), run_model, run_spec,
                                    oracle, corr, nontrivial, split, join)
             da.feed(CORPUS)
             for i in range(0, min(n, 20000), 2000):
